@@ -4,6 +4,7 @@ import subprocess
 
 from pygopherd import gopherentry
 from pygopherd.handlers.base import VFS_Real
+from pygopherd.handlers.file import has_fileno
 from pygopherd.handlers.virtual import Virtual
 
 
@@ -42,10 +43,11 @@ class ExecHandler(Virtual):
         if self.selectorargs:
             args.extend(self.selectorargs.split(" "))
 
-        if not self.protocol.check_tls():
+        if has_fileno(wfile) and not self.protocol.check_tls():
             subprocess.run(args, env=newenv, stdout=wfile)
         else:
-            # We can't pass the file handler because it's wrapped in a TLS context.
+            # We can't pass the file handler because it's wrapped in a TLS context
+            # (or it is an in-memory buffer, as in the WAP text conversion).
             # So grab the output from the CGI script and send it directly.
             resp = subprocess.run(args, env=newenv, capture_output=True)
             wfile.write(resp.stdout)
